@@ -145,6 +145,8 @@ class Run:
             print(f"MACHINERY-ERROR property={self.prop}: violation(s) did not reproduce from scratch: {unstable[:5]}")
             return 2
         code = 0
+        import shutil
+        shutil.rmtree(os.path.join(REPLAY_DIR, self.prop), ignore_errors=True)   # replays always describe the last run only
         if new:
             os.makedirs(os.path.join(REPLAY_DIR, self.prop), exist_ok=True)
             for i, (key, v) in enumerate(new[:400]):
